@@ -1,4 +1,10 @@
 import RV.Proofs.BloomBits
+/-!
+Filter-level lemmas for the Bloom model (C19): positions of `Add`/`Has`, the bit view `bitAt`,
+`Add` sets exactly its positions (so nothing is cleared), `Clear`, `AddIfNotHas`, sequences of
+mutating operations, the well-formedness `WF` that `NewBloomFilter` establishes, the byte-wise
+JSON export / import, and the little-endian word reading of the byte view.
+-/
 namespace RV.Bloom
 open Gen.Bloom
 
